@@ -635,7 +635,7 @@ def check_por(n=40):
             declared[t] = access(run, t)
             return t
         try:
-            run.sched.run(choose)
+            run.sched.run(choose, max_steps=MAX_STEPS)
         finally:
             run.close()
     return bad
@@ -663,13 +663,13 @@ def correspondence(ctx):
     exhaustive_done = {}
     fams = quick_exhaustive() + (thorough_exhaustive() if ctx.tier == "thorough" else [])
     for name, conf in fams:
-        n, complete = explore_dfs(batch, "exhaustive:" + name, conf, deadline=t0 + ctx.budget(45, 500))
+        n, complete = explore_dfs(batch, "exhaustive:" + name, conf, deadline=t0 + ctx.budget(45, 420))
         exhaustive_done[name] = dict(schedules=n, complete=complete)
     ctx.log("exhaustive families: %s (%.1fs)" % (exhaustive_done, time.time() - t0))
     bounded = {}
     for name, conf in bounded_configs()[:ctx.budget(1, 3)]:
         n, complete = explore_dfs(batch, "preemption<=%d:%s" % (ctx.budget(2, 3), name), conf, bound=ctx.budget(2, 3),
-                                  max_runs=ctx.budget(3000, 120000), deadline=t0 + ctx.budget(55, 700))
+                                  max_runs=ctx.budget(3000, 120000), deadline=t0 + ctx.budget(55, 600))
         bounded[name] = dict(schedules=n, complete=complete, bound=ctx.budget(2, 3))
     ctx.log("preemption-bounded families: %s (%.1fs)" % (bounded, time.time() - t0))
     r = Rng(ctx.seed).fork("c12")
@@ -685,7 +685,7 @@ def correspondence(ctx):
         finally:
             run.close()
         done_rand += 1
-        if time.time() - t0 > ctx.budget(80, 840):
+        if time.time() - t0 > ctx.budget(75, 780):
             break
     batch.flush()
     ctx.log("random schedules: %d (%.1fs)" % (done_rand, time.time() - t_rand))
@@ -708,9 +708,6 @@ def oracle(run, res):
     if sc.errors():
         t, ex = sorted(sc.errors().items())[0]
         return "thread %d raised %s" % (t, type(ex).__name__), "sender-raised:" + type(ex).__name__
-    if res.truncated:
-        return ("senders still running after %d steps (no configuration needs more than a few hundred)"
-                % len(res.schedule), "livelock")
     if res.deadlock:
         blocked = [t for t in sc.order if not sc.finished(t)]
         return ("deadlock: thread(s) %s have not returned and no thread can run (%s)"
@@ -726,6 +723,9 @@ def oracle(run, res):
         if mine != [i for i in called if i in mine]:
             return ("messages of thread %d left in the order %s but were issued in the order %s"
                     % (os_t, mine, called), "per-thread-order")
+    if res.truncated:
+        return ("senders still running after %d steps (no configuration needs more than a few hundred)"
+                % len(res.schedule), "livelock")
     if sc.all_finished():
         q = [run.ident(x) for x in list.__iter__(run.conn._send_queue)]
         if q:
@@ -755,7 +755,7 @@ def oracle_search(ctx, corr, broken):
         # by always running the first enabled thread)
         best = list(schedule)
         lo = 0
-        while lo < len(best):
+        while lo < min(len(best), 80):
             trial = best[:lo]
             v, full, acts = oracle_case(conf, trial)
             if v and v[1] == sig:
